@@ -65,6 +65,14 @@ Theorem configured_limits_are_the_policy : forall mt lims p, policy_of_config mt
 Proof. exact policy_of_config_lemma. Qed.
 Print Assumptions configured_limits_are_the_policy.
 
+(* the per-validation-object dimension (limit field, exhaustion bit) of every kind: the model's local_dim is the
+   srcgen translation of RecursionWorkLedger.localDimension *)
+Theorem local_dimension_is_the_translated_function : forall p k,
+  go_RecursionWorkLedger_localDimension (mk_T_RecursionWorkLedger p) k =
+  match local_dim p k with Some (lim, bit) => (lim, bit, true) | None => (0, 0, false) end.
+Proof. exact gen_local_dimension. Qed.
+Print Assumptions local_dimension_is_the_translated_function.
+
 (* ... and the validation step in front of it, translated from config.RecursionFirewallConfig.Validate: only the
    three mode names are accepted (anything else makes MustRecursionWorkPolicyFromConfig panic), and a known mode
    with non-zero limits and failure-cache fields in range is accepted as configured *)
